@@ -65,7 +65,8 @@ func vPickFields(tag string) []vField {
 			f1.arg = "(a: Int = 3)"
 		}
 	}
-	f2 := vField{name: "f2", typ: "[String!]"}
+	// legal names may contain a double underscore anywhere but at the start
+	f2 := vField{name: "f__2", typ: "[String!]"}
 	switch verifChoice(tag+".fields", 3) {
 	case 0:
 		return []vField{f1}
@@ -114,7 +115,7 @@ func vPickType(tag string, kinds int) vType {
 		}
 		return t
 	case 5:
-		return vType{kind: "union", values: vPickSubset(tag, "U1", "U2")}
+		return vType{kind: "union", values: vPickSubset(tag, "U1", "U__2")}
 	case 6:
 		return vType{kind: "scalar"}
 	}
@@ -124,7 +125,7 @@ func vPickType(tag string, kinds int) vType {
 func (s vService) sdl() string {
 	var b strings.Builder
 	b.WriteString("interface Node { id: ID! }\n")
-	b.WriteString("type U1 { u: Int }\ntype U2 { v: Int }\n")
+	b.WriteString("type U1 { u: Int }\ntype U__2 { v__x: Int }\n")
 	t := s.t
 	fields := func(isInput bool) string {
 		var fs []string
@@ -166,7 +167,7 @@ func (s vService) sdl() string {
 	}
 	b.WriteString("type Query { q" + verifItoa(s.idx) + ": Int")
 	if s.dup {
-		b.WriteString(" dup: String")
+		b.WriteString(" du__p: String")
 	}
 	if s.node {
 		b.WriteString(" node(id: ID!): Node")
@@ -464,6 +465,9 @@ func VerifMerge() {
 			if s.probe2 {
 				verifAssert(sc.Types["Query"].Fields.ForName("revision") != nil, "every root field of every service is in the gateway schema (revision)")
 			}
+			if s.dup {
+				verifAssert(sc.Types["Query"].Fields.ForName("du__p") != nil, "every root field of every service is in the gateway schema (du__p)")
+			}
 			if t.kind == "" {
 				continue
 			}
@@ -566,6 +570,10 @@ func VerifMerge() {
 	for _, s := range svcs {
 		u, ok := tm.Get("Query", "q"+verifItoa(s.idx))
 		verifAssert(ok && u == "svc"+verifItoa(s.idx), "every root field is routed to the service that declared it")
+		if s.dup {
+			ud, okd := tm.Get("Query", "du__p")
+			verifAssert(okd && ud == "svc"+verifItoa(s.idx), "every root field is routed to the service that declared it (du__p)")
+		}
 		if s.t.kind == "object" {
 			for _, f := range s.t.fields {
 				u, ok := tm.Get("T", f.name)
